@@ -46,6 +46,24 @@ func exerciseAccepted(p *position.Position) {
 		}
 	}
 	evaluator.NewEvaluator().Evaluate(p)
+	// what a search does with the position: make every pseudo-legal move, test its legality afterwards, and
+	// generate / evaluate below it
+	pseudo := mg.GeneratePseudoLegalMoves(p, movegen.GenAll, false).Clone()
+	mg3 := movegen.NewMoveGen()
+	for _, m := range *pseudo {
+		p.DoMove(m)
+		if p.WasLegalMove() {
+			p.HasCheck()
+			for _, m2 := range *mg3.GeneratePseudoLegalMoves(p, movegen.GenAll, p.HasCheck()).Clone() {
+				p.DoMove(m2)
+				p.WasLegalMove()
+				p.UndoMove()
+			}
+			mg3.HasLegalMove(p)
+			evaluator.NewEvaluator().Evaluate(p)
+		}
+		p.UndoMove()
+	}
 	for _, m := range *legal {
 		p.GivesCheck(m)
 		p.DoMove(m)
@@ -162,7 +180,7 @@ func mutateFen(t *rapid.T, fen string) string {
 	f := strings.Fields(fen)
 	ranks := strings.Split(f[0], "/")
 	pick := func(n int, l string) int { return rapid.IntRange(0, n-1).Draw(t, l) }
-	switch rapid.IntRange(0, 17).Draw(t, "mutation") {
+	switch rapid.IntRange(0, 20).Draw(t, "mutation") {
 	case 0: // truncate anywhere
 		return fen[:pick(len(fen)+1, "cut")]
 	case 1: // over-long rank: extra piece
@@ -227,6 +245,32 @@ func mutateFen(t *rapid.T, fen string) string {
 	case 17: // ep field added to a FEN whose position does not support it (side/pawn mismatch)
 		if len(f) > 3 {
 			f[3] = rc.SqName(rc.Sq(pick(8, "file"), rapid.SampledFrom([]int{2, 5}).Draw(t, "rank")))
+		}
+	case 18: // the other side to move (text stays valid FEN; the side that has just moved may be in check)
+		if len(f) > 1 {
+			if f[1] == "w" {
+				f[1] = "b"
+			} else {
+				f[1] = "w"
+			}
+			if len(f) > 3 {
+				f[3] = "-"
+			}
+		}
+	case 19: // an additional piece on an empty square (may attack the king of the side not to move)
+		i := pick(8, "rank")
+		if k := strings.IndexAny(ranks[i], "12345678"); k >= 0 {
+			d := int(ranks[i][k] - '0')
+			pc := rapid.SampledFrom([]string{"Q", "q", "R", "r", "B", "b", "N", "n", "P", "p"}).Draw(t, "piece")
+			rest := ""
+			if d > 1 {
+				rest = strconv.Itoa(d - 1)
+			}
+			ranks[i] = ranks[i][:k] + pc + rest + ranks[i][k+1:]
+		}
+	case 20: // castling rights the placement does not support
+		if len(f) > 2 {
+			f[2] = rapid.SampledFrom([]string{"KQkq", "K", "Q", "k", "q", "Kq", "Qk"}).Draw(t, "rights")
 		}
 	}
 	f[0] = strings.Join(ranks, "/")
@@ -300,7 +344,7 @@ func FuzzC16Fen(f *testing.F) {
 	for _, s := range hx.SeedFENs[:40] {
 		f.Add(s)
 	}
-	for _, s := range []string{"rnbqkbnrr/pppppppp/8/8/8/8/PPPPPPPP/RNBQKBNR w KQkq - 0 1", "9/8/8/8/8/8/8/8 w", "8/8/8/8/8/8/8/8/8 w - -", "4k3/8/8/8/8/8/8/4K3 w - e1 0 1", "k7/8/8/8/8/8/8/8 w - - 0 1", "", " ", "/", "8/8/8/8/8/8/8/K1k5 b - - -1 -1"} {
+	for _, s := range []string{"rnbqkbnrr/pppppppp/8/8/8/8/PPPPPPPP/RNBQKBNR w KQkq - 0 1", "9/8/8/8/8/8/8/8 w", "8/8/8/8/8/8/8/8/8 w - -", "4k3/8/8/8/8/8/8/4K3 w - e1 0 1", "k7/8/8/8/8/8/8/8 w - - 0 1", "", " ", "/", "8/b7/6P1/6R1/2K5/8/P7/R3kn2", "4k3/8/8/8/8/8/8/4RK2 w - - 0 1", "8/8/8/8/8/8/8/K1k5 b - - -1 -1"} {
 		f.Add(s)
 	}
 	f.Fuzz(func(t *testing.T, s string) {
